@@ -23,6 +23,7 @@ RULE = ('programs: every arithmetic operator and compound assignment (name and i
 RULE += ' Host numbers include int / float / Decimal subclasses and IntEnum members.'
 RULE += " One more workload: the repository's own test-suite, run in a worker process against the sandbox copy with this check's monitors installed (the tests' assertions are not the oracle, the monitors are)."
 RULE += " Coverage-guided programs over host numbers of all types: one atheris/libFuzzer process per worker (5 s quick, 100 s thorough) runs this check's own judgement on generated program texts; programs on which an unlisted violation was recorded there are judged again by the worker."
+RULE += " One program in five runs against the function table as the repository built it (monitor wrappers taken out for those eval calls, the node monitor stays on): code that recognises its own builtins by identity takes other paths under wrappers."
 ASSUMPTIONS = ['size of a Decimal = length of its coefficient; of an int = number of decimal digits; a float result counts as <= 17, a float '
                'argument as its exact decimal expansion',
                'for numeric operands, "raises an arithmetic error" = an ArithmeticError subclass (decimal signals, ZeroDivisionError, OverflowError)',
